@@ -92,7 +92,7 @@ class CallLog:
         self.module_name = module_name
         self.calls = []
 
-    def call(self, mod, fname, *args, expect_exc=(ValueError,)):
+    def call(self, mod, fname, *args, expect_exc=(Exception,)):
         """call mod.fname(*args); returns ('ok', result) or ('exc', name)"""
         eargs = [enc(a) for a in args]
         try:
